@@ -414,6 +414,13 @@ def check_who_creates(ctx):
     rule = 'R7-one-entry-per-level'
     pk = repo.cls('Packet')
     allowed = {pk.methods[m].id for m in ('pack_impl', 'unpack_impl') if m in pk.methods}
+    # a context manager of the package that the drivers run their field loop under is the drivers'
+    # handler written as a class: its __exit__ creates the error for the driver
+    for m in ('pack_impl', 'unpack_impl'):
+        if m in pk.methods:
+            for c in ast.walk(pk.methods[m].node):
+                if isinstance(c, ast.Call) and isinstance(c.func, ast.Name) and repo.has_cls(c.func.id) and '__exit__' in repo.cls(c.func.id).methods:
+                    allowed.add(repo.cls(c.func.id).methods['__exit__'].id)
     sites = 0
     for fi in repo.functions.values():
         if fi.qual.split('.')[-1] in repo.absorbed:
